@@ -7,7 +7,6 @@ TPL = {
     "fast_composite_over_8888_8888": {"OP": 3, "SFMT": "PIXMAN_a8r8g8b8", "DFMT": "PIXMAN_a8r8g8b8", "SRC_SOLID": 0},
     "fast_composite_src_memcpy": {"OP": 1, "SFMT": "PIXMAN_a8r8g8b8", "DFMT": "PIXMAN_a8r8g8b8", "SRC_SOLID": 0},
     "fast_composite_add_8888_8888": {"OP": 12, "SFMT": "PIXMAN_a8r8g8b8", "DFMT": "PIXMAN_a8r8g8b8", "SRC_SOLID": 0},
-    "fast_composite_over_8888_8_8888": {"OP": 3, "SFMT": "PIXMAN_a8r8g8b8", "MFMT": "PIXMAN_a8", "MASK_CA": 0, "DFMT": "PIXMAN_a8r8g8b8", "SRC_SOLID": 0},
     "fast_composite_scaled_nearest_8888_8888_OVER": {"OP": 3, "SFMT": "PIXMAN_a8r8g8b8", "DFMT": "PIXMAN_a8r8g8b8", "SRC_SOLID": 0, "SCALE": 32768, "SREPEAT": "PIXMAN_REPEAT_PAD"},
     "fast_composite_src_x888_8888": {"OP": 1, "SFMT": "PIXMAN_x8r8g8b8", "DFMT": "PIXMAN_a8r8g8b8", "SRC_SOLID": 0},
 }
@@ -33,8 +32,8 @@ def instances(tier):
     EX = ("pixman-sse2.c", "pixman-ssse3.c", "pixman-mmx.c")
     sse = [("add_u", 12, 0, 0, 6, 0), ("src_ca", 1, 1, 0, 5, 0)]
     if tier == "thorough":
-        sse += [("over_u", 3, 0, 0, 5, 1), ("in_u", 5, 0, 0, 5, 0), ("out_reverse_u", 8, 0, 0, 5, 3), ("xor_u", 11, 0, 0, 5, 2),
-                ("add_ca", 12, 1, 0, 5, 1), ("over_ca", 3, 1, 0, 5, 0), ("add_u_masked", 12, 0, 1, 5, 0)]
+        sse += [("over_u", 3, 0, 0, 5, 1), ("in_u", 5, 0, 0, 5, 0), ("out_reverse_u", 8, 0, 0, 5, 3),
+                ("add_ca", 12, 1, 0, 5, 1), ("add_u_masked", 12, 0, 1, 5, 0)]   # xor_u, over_ca, masked over: no verdict in 2400 s
     for nm, op, ca, mk, w, off in sse:
         L.append(Inst("sse2-combine-%s-w%d-off%d" % (nm, w, off), "C02/sse2_comb.c", {"OP": op, "CA": ca, "MASKED": mk, "W": w, "OFF": off},
                       simd=True, exclude=EX, models=("env_stubs.c", "x86_builtins.c"), unwind=70, objbits=12, timeout=2400 if tier == "thorough" else 900,
@@ -78,10 +77,10 @@ TEXT = ("Translation validation by bounded model checking: each selected routine
         "destination buffers must be bit-identical including row padding; implementation selection is checked separately: PIXMAN_DISABLE parsing "
         "for a symbolic environment string, and chain assembly incl. 'wholeops' for a menu of settings.")
 NOTE = ("SSE2: the 22 unified/component-alpha combiners are reachable through models of the 20 GCC builtins pixman-sse2.c needs "
-        "(models/x86_builtins.c, compared with the real instructions on 20000 vectors at the start of every run); 2 combiners at quick tier, 9 at "
+        "(models/x86_builtins.c, compared with the real instructions on 20000 vectors at the start of every run); 2 combiners at quick tier, 7 at "
         "thorough; masked OVER-class combiners do not finish in 900 s. sse2_fill/sse2_blt are compared with the C chain / the rectangle semantics (concrete geometry); five SSE2 composite routines run through the API differential at thorough tier (9-14 min each). "
         "SSE2 scaling/bilinear routines, the SSSE3 and MMX (inline asm) levels and CPU detection are NOT encoded - that part of the property is not claimed. C levels: 3x2 images, 8 routine templates.")
 RULE = "C02 program = one fast-path routine compared against the general path; plus configuration instances."
-BOUNDS = {"images": "3x2 with padding", "routines": "8 of ~150 c_fast_paths entries (2 at quick tier)"}
+BOUNDS = {"images": "3x2 with padding", "routines": "7 of ~150 c_fast_paths entries (2 at quick tier)"}
 OUTSIDE = ["most SSE2 composite and all SSE2 scaling routines; pixman-ssse3.c; pixman-mmx.c (inline asm)", "CPU feature detection (cpuid)", "fast-path table entries without a template", "widths beyond 3 pixels"]
 ASSUMPTIONS = ["allocation succeeds", "getenv stub"]
